@@ -18,15 +18,15 @@ def node : Nat → Option Node
   | 1 => some (.ctrAdd (.var 0) 1 2)  -- newV := wg.count.Add(int64(delta))
   | 2 => some (.branch (.ieq (.var 1) (.lit 0)) 3 8)  -- newV == 0
   | 3 => some (.ptrSwap .sentinel 2 4)  -- oldChan := wg.wChan.Swap(&closedChan)
-  | 4 => some (.branch (.not (.peq (.var 2) .sentinel)) 5 6)  -- oldChan != &closedChan
-  | 5 => some (.close (.var 2) 6)  -- close(*oldChan)
-  | 6 => some (.unlock 7)  -- deferred wg.mu.Unlock()
-  | 7 => some (.retInt (.var 1))  -- return int(newV)
-  | 8 => some (.branch (.and (.ilt (.lit 0) (.var 0)) (.ieq (.var 1) (.var 0))) 9 6)  -- delta > 0 && newV == int64(delta)
+  | 4 => some (.branch (.peq (.var 2) .sentinel) 5 7)  -- NOT (oldChan != &closedChan)
+  | 5 => some (.unlock 6)  -- deferred wg.mu.Unlock()
+  | 6 => some (.retInt (.var 1))  -- return int(newV)
+  | 7 => some (.close (.var 2) 5)  -- close(*oldChan)
+  | 8 => some (.branch (.and (.ilt (.lit 0) (.var 0)) (.ieq (.var 1) (.var 0))) 9 5)  -- delta > 0 && newV == int64(delta)
   | 9 => some (.make 3 10)  -- newChan := make(chan struct{})
   | 10 => some (.ptrCAS .sentinel (.var 3) 4 11)  -- wg.wChan.CompareAndSwap(&closedChan, &newChan)
-  | 11 => some (.branch (.not (.bvar 4)) 12 6)  -- !wg.wChan.CompareAndSwap(&closedChan, &newChan)
-  | 12 => some (.close (.var 3) 6)  -- close(newChan)
+  | 11 => some (.branch (.bvar 4) 5 12)  -- NOT (!wg.wChan.CompareAndSwap(&closedChan, &newChan))
+  | 12 => some (.close (.var 3) 5)  -- close(newChan)
   | 13 => some (.ctrLoad 0 14)  -- count := wg.count.Load()
   | 14 => some (.ptrLoad 1 15)  -- wgChan := wg.wChan.Load()
   | 15 => some (.branch (.or (.ieq (.var 0) (.lit 0)) (.and (.ilt (.lit 0) (.var 0)) (.not (.peq (.var 1) .sentinel)))) 16 13)  -- count == 0 || (count > 0 && wgChan != &closedChan)
